@@ -32,7 +32,7 @@ PROPS = {
         "must_observe": ["exhaustive_budget_sweeps", "exempt_guard_entered", "cost_above_2^62", "failing_runs_swept_over_guard_windows"],
         "rule": PROG + "x random flag sets, plus directed programs whose last operation or an operator-internal cost check crosses the budget and unknown-extension softforks with declared costs around 2^62, 2^63 and 2^64 (probed at u64::MAX instead of the 5e7 stand-in). "
                 "Each program is run at budget 0 (cost C) and then at {C, C+1, 2C, u64::MAX, random>=C} (must be identical) and {C-1, C-2, C/2, 1, random<C} "
-                "(must be CostExceeded); every budget 1..C+2 exhaustively when C<=4000; when the GuardEnter hook reports a cost-exempt guard the smallest "
+                "(must be CostExceeded); every budget 1..C+2 exhaustively when C<=4000; when the GuardEnter hook reports a cost-exempt guard and the flags contain NEW_COST_MODEL (nothing else may grandfather a guard) the smallest "
                 "succeeding budget is located by bisection and monotonicity asserted around it. A run that fails at budget 0 must fail at every budget: {1, 1000, random, u64::MAX-1, u64::MAX}, every budget inside the window [entry cost-2, entry cost+declared+2] of every softfork guard the run entered (GuardEnter hook events; a guard temporarily replaces the budget), and 1..600 for a sixteenth of the other failing runs. Non-trivial: succeeded at 0 with C>=100 and >=6 budgets swept.",
         "assumptions": COMMON_ASSUMPTIONS + ["the GuardEnter hook's `exempt` field decides whether the minimal budget may exceed C"],
     },
@@ -289,8 +289,8 @@ PROPS = {
         "variants": REL,
         "budget_s": (25, 300),
         "min_nontrivial": {"quick": 2000, "thorough": 20000},
-        "must_observe": ["small_int_cases", "parse_triples_node_hashes"],
-        "rule": "Every integer 0..300 in canonical, zero-padded and single-byte form (alone and inside shared pairs) and random trees/DAGs with atoms in all representations: the harness's recursive-definition hash (sha2 crate, memoised) is compared with "
+        "must_observe": ["small_int_cases", "long_atom_cases", "parse_triples_node_hashes"],
+        "rule": "Every integer 0..300 in canonical, zero-padded and single-byte form (alone and inside shared pairs), atoms of 55..1,048,577 bytes around the 64/512/1024/4096/8192/65536-byte block sizes (alone and inside a small tree) and random trees/DAGs with atoms in all representations: the harness's recursive-definition hash (sha2 crate, memoised) is compared with "
                 "tree_hash_costed, op_sha256_tree, run_program (sha256tree 1), ObjectCache treehash, InternedTree::tree_hash, tree_hash_from_stream, the root hash of parse_triples, and the ChiaLisp sha256tree program; the wheel's sha256_treehash is compared in the C26 python monitor. "
                 "Non-trivial: tree has a shared sub-tree or an atom of <=1 byte.",
         "assumptions": COMMON_ASSUMPTIONS,
@@ -339,7 +339,7 @@ PROPS = {
         "must_observe": ["guards_completed_exempt", "guards_completed_exact_cost", "depth_boundary_cases"],
         "rule": "Guard towers of depth 1..25 built bottom-up with measured exact costs (5 inner bodies x {old, new model, GC} x LIMIT_SOFTFORK on/off: success expected iff not (LIMIT_SOFTFORK and depth>20)) and typed random programs "
                 "containing guards under random flag sets. An online checker consumes the GuardEnter/GuardExit hook events of every run with a stack of open guards and asserts: counts at exit == counts at entry, result nil, "
-                "consumed cost == declared unless cost-exempt. Non-trivial: >=1 guard completed.",
+                "consumed cost == declared unless cost-exempt, where a guard may be cost-exempt only under NEW_COST_MODEL (the interpreter's own exempt marker is checked against the flags, not trusted). Non-trivial: >=1 guard completed.",
         "assumptions": COMMON_ASSUMPTIONS + ["GuardEnter/GuardExit hook events (verif-hooks) faithfully report the allocator counters at guard entry and exit"],
     },
     "C04": {
